@@ -738,6 +738,9 @@ P_GLOBAL_TRUST = [
     "python semantics assumed by the encoding: static name resolution (no monkey-patching); attribute reads are side-effect free; "
     "int is mathematical integer; float treated as real; bytes/str are sequences with python slice clamping; list mutation has value semantics (no aliasing of mutated lists); left-to-right evaluation",
     "invariant induction over histories and rely/guarantee soundness for cooperative scheduling (meta-theorems)",
+    "preconditions of the sidecar contracts (`requires`): proved at every call site INSIDE the package, assumed for calls from outside - "
+    "e.g. the connection classes are verified for requests whose URL scheme the pool has already accepted (a direct user handing an "
+    "ftp:// URL to an HTTPConnection gets a KeyError from URL.origin), limits are non-negative, a network back end is given",
 ]
 
 
